@@ -236,6 +236,9 @@ func cmdCheck(args []string) int {
 		if !used {
 			continue
 		}
+		for _, u := range sf.Uses {
+			markUsed(u)
+		}
 		tv, err := P.specTerminationVCs(sf)
 		if err != nil {
 			bindingFailures = append(bindingFailures, err.Error())
@@ -368,7 +371,7 @@ func cmdCheck(args []string) int {
 	// evidence
 	if !*noEvidence && *prop != "" && *only == "" && *onlyOb == "" {
 		var assumptions []string
-		assumptions = append(assumptions, P.assumptionList(*prop, usedFC, funcs)...)
+		assumptions = append(assumptions, P.assumptionList(*prop, usedFC, usedLemma)...)
 		assumptions = append(assumptions, trusted...)
 		for _, n := range sortedKeysB(notes) {
 			assumptions = append(assumptions, n)
@@ -417,10 +420,10 @@ func truncate(s string, n int) string {
 }
 
 // assumptionList: mechanical scan of what this run relied on without proving it here.
-func (P *Prog) assumptionList(prop string, used map[*FuncContract]bool, verified []string) []string {
+func (P *Prog) assumptionList(prop string, used map[*FuncContract]bool, usedLemma map[string]bool) []string {
 	var out []string
 	for _, lm := range P.lemmaList {
-		if lm.Axiom {
+		if lm.Axiom && usedLemma[lm.Name] {
 			out = append(out, fmt.Sprintf("axiom %s (%s)", lm.Name, lm.Reason))
 		}
 	}
